@@ -100,9 +100,9 @@ def run(ctx):
     ctx.check(okd, 'R1', f.loc, f.qualname, 'separator-default', 'separator=None means a newline')
     pub = ctx.prog.func(f'{N.PUBLIC}.concat')
     pr = symex.returns(pub)
-    okp = len(pr) == 1 and src(pr[0][1]) == f'generic.Generic.concat(contents={pub.params[0]}, separator=separator)'
+    okp = len(pr) == 1 and F.same(ctx, pub, pr[0][1], f'generic.Generic.concat(contents={pub.params[0]}, separator=separator)')
     ctx.check(okp, 'R1', pub.loc, pub.qualname, 'public-forwards', 'kernpy.concat forwards contents and separator unchanged')
     cr = ctx.prog.func(f'{N.GENERIC}.create')
     rr = symex.returns(cr)
-    ctx.check(len(rr) == 1 and src(rr[0][1]) == f'Generic.create(content={cr.params[0]}, strict={cr.params[1]})', 'R1', cr.loc, cr.qualname,
+    ctx.check(len(rr) == 1 and F.same(ctx, cr, rr[0][1], f'Generic.create(content={cr.params[0]}, strict={cr.params[1]})'), 'R1', cr.loc, cr.qualname,
               'create-is-loads', 'create(text) is the string import of the API (same function as loads)')
